@@ -133,7 +133,27 @@ def check(src, rep):
             else:
                 rep.violation("R2", f"{MOD}.DataReadout.__init__", "constructor-rejects", "the constructor refuses a well-formed readout", file, init.node.lineno, witness=str(outcome))
         else:
-            rep.undecide(f"R2 the constructor's '/' and '!' tests are not in a recognised form (representative byte strings are treated correctly: {outcome})")
+            # the tests are written in a form the path rule does not read: more representatives, through the interpreter
+            more = {}
+            for tag_, sample, want_ in (("empty", b"", "raise"), ("only-end", b"!\r\n", "raise"), ("slash-later", b"X\r\n/ABC5x\r\n!\r\n", "raise"), ("only-slash", b"/", "raise"),
+                                        ("minimal", b"/!", "constructed"), ("blank-then-good", b" \t\r\n/ABC5x\r\n!\r\n", "constructed")):
+                try:
+                    AbsEval(M).instantiate(CLS, [sample])
+                    got_ = "constructed"
+                except AbsRaise:
+                    got_ = "raise"
+                except Exception as ex_:  # noqa
+                    got_ = f"?{type(ex_).__name__}"
+                more[tag_] = (got_, want_)
+            if all(g_ == w_ for g_, w_ in more.values()):
+                rep.ok("R2", "constructor (representatives)", f"its '/' and '!' tests are not in a form the path rule reads; on {len(outcome) + len(more)} representative byte strings it accepts "
+                       "exactly those that start with '/' (after leading white space) and contain '!' (E-ABS)")
+            elif any(g_.startswith("?") for g_, _ in more.values()):
+                rep.undecide(f"R2 the constructor's '/' and '!' tests are not in a recognised form and some representatives are outside the interpreted subset ({more})")
+            else:
+                bad_ = {k_: v_ for k_, v_ in more.items() if v_[0] != v_[1]}
+                rep.violation("R2", f"{MOD}.DataReadout.__init__", "constructor-checks", "the constructor does not accept exactly the byte strings that start with '/' and contain '!'", file, init.node.lineno,
+                              witness=str(bad_)[:200])
     # ---------------------------------------------------------------- R1 + R2: CRC fold
     window = E0.ev(foldnode.iter, foldentry.clone(), foldfr)
     _crc(rep, M, ce, crcfn, RO, END, file, window, stored, foldnode)
